@@ -5,3 +5,4 @@ import MtailVerif.Props.C21
 import MtailVerif.Props.C10
 import MtailVerif.Props.C12
 import MtailVerif.Props.C13
+import MtailVerif.Props.C22
